@@ -21,7 +21,7 @@
 From Coq Require Import List Arith NArith Bool Permutation.
 Import ListNotations.
 Require Import Celma.Common.Res Celma.Text.TextBlockModel Celma.Text.TextBlockProofs.
-Require Import Celma.Text.Usage Celma.Text.UsageProofs Celma.Text.UsageDigest Celma.Text.UsageSub.
+Require Import Celma.Text.Usage Celma.Text.UsageProofs Celma.Text.UsageDigest Celma.Text.UsageSub Celma.Text.UsageAgain.
 Require Celma.ArgH.Key Celma.ArgH.Table.
 
 (** usage_section: the usage is the mandatory section followed by the optional
@@ -380,6 +380,19 @@ Proof.
   split; [vm_compute; reflexivity|].
   intros a H. vm_compute in H. inversion H; subst. vm_compute. reflexivity.
 Qed.
+
+(** The same handler object prints its usage again, any number of times
+    (operator<< after the evaluation): every printing adds exactly the lines of
+    a first printing under the settings in force - captions, entries and all -
+    so the theorems about [usage_lines] hold for every one of them.  (Tie added
+    after the seeded change C18-7 was missed.) *)
+Theorem C18_usage_printed_again :
+  forall n f width user s s',
+    print_again n f width user s = Ok s' ->
+    hp s' = hp s /\ herr s' = herr s /\ hprinted s' = hprinted s /\
+    hout s' = hout s ++ repeat_lines n (usage_lines (hp s) width (start_args f ++ user)).
+Proof. exact print_again_spec. Qed.
+Print Assumptions C18_usage_printed_again.
 
 (** pinned code, defect 3: with hfUsageHidden | hfArgHidden the argument
     --print-hidden switches the display of hidden arguments off *)
